@@ -91,6 +91,7 @@ class Collector:
         self.violations = []
         self.per_mech = Counter()
         self.inconclusive = []
+        self.soft_inconclusive = []
         self.samples = []
         self.max_per_mech = max_per_mech
         self.max_samples = max_samples
@@ -112,6 +113,7 @@ class Collector:
             "counters": dict(self.counters),
             "violations": self.violations,
             "inconclusive": self.inconclusive[:20],
+            "soft_inconclusive": self.soft_inconclusive[:20],
             "samples": self.samples,
         }
 
@@ -191,6 +193,43 @@ def pick_op(rng, spec, ids, selections):
     return op
 
 
+def reconfigure(rng, sp, d, ids, mc_max):
+    """Re-configure a built DAG (max_concurrency by config or attribute assignment; PARTIAL per-node configs that name only
+    priority or only is_sequential). Returns the spec the monitors must use afterwards."""
+    import copy
+
+    sp = copy.deepcopy(sp)
+    conf = {}
+    if rng.random() < 0.6:
+        new_mc = rng.randint(1, mc_max)
+        sp["mc"] = new_mc
+        if rng.random() < 0.4:
+            d.max_concurrency = new_mc
+        else:
+            conf["max_concurrency"] = new_mc
+    nodes_conf = {}
+    uses = {}
+    for nd in sp["nodes"]:
+        uses[nd["fn"]] = uses.get(nd["fn"], 0) + 1
+    for i, nd in enumerate(sp["nodes"]):
+        if uses[nd["fn"]] != 1 or rng.random() > 0.4:
+            continue
+        c = {}
+        if rng.random() < 0.75:
+            c["priority"] = rng.choice([-3, 0, 1, 2, 4, 7, 9])
+            sp["fns"][nd["fn"]]["priority"] = c["priority"]
+        if rng.random() < 0.25:
+            c["is_sequential"] = rng.random() < 0.5
+            sp["fns"][nd["fn"]]["is_sequential"] = c["is_sequential"]
+        if c:
+            nodes_conf[ids[i]] = c
+    if nodes_conf:
+        conf["nodes"] = nodes_conf
+    if conf:
+        d.config_from_dict(conf)
+    return sp
+
+
 def eval_case(col, case, mode, focus=None):
     viol, st, v = sched.check_all(case)
     col.evaluations += 1
@@ -200,8 +239,11 @@ def eval_case(col, case, mode, focus=None):
     if case["ref"][0] != "ok":
         col.counters["ref_raised"] += 1
     if v.bypassed if v.tok is not None else False:
-        col.counters["controller_bypassed"] += 1
-        col.inconclusive.append("controller bypassed (%s)" % [e.get("why") for e in case["log"] if e["kind"] == "BYPASS"][:1])
+        # wall-clock safety valve fired (loaded machine): the case is excluded from every schedule-dependent verdict and
+        # counted; the runner turns the whole check inconclusive only if such cases are more than a negligible fraction
+        col.counters["cases_skipped_controller_bypassed"] += 1
+        col.soft_inconclusive.append("controller bypassed (%s)" % [e.get("why") for e in case["log"] if e["kind"] == "BYPASS"][:1])
+        return []
     nsites = len(case["ids"])
     if nsites >= 2 and (st.get("c06_decisions", 0) or st.get("c08_waits", 0)):
         col.hashes.add(S.spec_hash(case["spec"]) + sched.order_hash(case) + "%08x" % zlib.crc32(repr((case["op"], case["faults"])).encode()))
@@ -241,6 +283,9 @@ def job_sched(j):
         if set(ids) - set(d.exec_nodes):
             col.inconclusive.append("predicted node ids not found in DAG: %s" % sorted(set(ids) - set(d.exec_nodes))[:3])
             continue
+        if rng.random() < j.get("reconfig", 0.35):
+            sp = reconfigure(rng, sp, d, ids, j.get("gen", {}).get("mc_max", 4))
+            col.counters["reconfigured_dags"] += 1
         for _rep in range(j.get("reps", 2)):
             op = pick_op(rng, sp, ids, j.get("selections", False))
             faults = []
